@@ -17,6 +17,18 @@ NewNode(S, nm) ==          \* Node(name): fresh id = next in creation order, reg
             !.content = Append(@, NULL), !.tail = Append(@, NULL), !.prefix = Append(@, NOSTR),
             !.attrs = Append(@, <<>>), !.extras = Append(@, <<>>), !.store = @ \cup {Len(S.kids) + 1}]
 
+RECURSIVE MkNodes(_, _)
+MkNodes(S, nms) == IF nms = <<>> THEN S ELSE MkNodes(NewNode(S, Head(nms)), Tail(nms))
+
+(* import of a document with fresh ids: shape[k] = position of the parent of the k-th node in
+   pre-order (0 for the root); nodes are created, and registered, in pre-order *)
+ImportF(S, nm, shape) ==
+  LET base == Size(S)  n == Len(shape)
+      S1 == MkNodes(S, [k \in 1..n |-> nm])
+      kidsOf(j) == SelectSeq([k \in 1..n |-> k], LAMBDA k : shape[k] = j)
+  IN [S1 EXCEPT !.kids = [i \in 1..(base + n) |->
+        IF i <= base THEN S.kids[i] ELSE [x \in 1..Len(kidsOf(i - base)) |-> base + kidsOf(i - base)[x]]]]
+
 AddChildF(S, p, c, i) ==
   [S EXCEPT !.kids = AddChildK(S.kids, p, c, i), !.ns = AttachNS(S.kids, S.ns, p, c)]
 RemoveChildF(S, p, c)    == [S EXCEPT !.kids = RemoveChildK(S.kids, p, c)]
